@@ -290,6 +290,13 @@ def _molden(angs, style="Angs"):
     return new
 
 
+def _chgcar_lefthanded():
+    """CHGCAR.oxygen with two lattice vectors exchanged: a left-handed cell of the same volume"""
+    lines = (DATA / "CHGCAR.oxygen").read_text().splitlines(keepends=True)
+    lines[2], lines[3] = lines[3], lines[2]
+    return "".join(lines)
+
+
 def _water():
     from iodata import load_one
 
@@ -399,6 +406,7 @@ def load_probes():
     add("chgcar", "atcoords", "chgcar", g_coords, text=_chgcar_cart, name="CHGCAR.p", span=(7, 12))
     add("chgcar", "cube.data", "chgcar", lambda d: d.cube.data, file="CHGCAR.oxygen", name="CHGCAR.p", span=(11, 13))
     add("chgcar", "cellvecs", "chgcar", g_cell, file="CHGCAR.oxygen", name="CHGCAR.p", span=(2, 5))
+    add("chgcar-lefthanded", "cube.data", "chgcar", lambda d: d.cube.data, text=_chgcar_lefthanded, name="CHGCAR.p", span=(11, 13))
     add("locpot", "cellvecs", "locpot", g_cell, file="LOCPOT.oxygen", name="LOCPOT.p", span=(2, 5))
     add("locpot", "cube.data", "locpot", lambda d: d.cube.data, file="LOCPOT.oxygen", name="LOCPOT.p", span=(10, 14))
     add("gromacs", "atcoords", "gromacs", g_coords, text=_gro, name="p.gro", span=(2, 5))
@@ -714,6 +722,42 @@ def search(ctx):
         if not ok:
             ctx.fail(f"unit:{fmt}:atmasses", f"atmasses loaded from {fn} are {ratio.mean():.3e} x the atomic masses in a.u. (amu left unconverted)",
                      {"kind": "mass", "file": fn, "fmt": iofmt})
+    # the same file through load_many and load_one: per-atom constants (masses, atomic numbers, core charges) agree
+    from iodata import load_many
+    from iodata.api import FORMAT_MODULES
+
+    for p in sorted(DATA.iterdir()):
+        if not p.is_file() or p.stat().st_size > 300_000:
+            continue
+        fmt = "json_qcschema" if p.suffix == ".json" else None
+        try:
+            from iodata.api import _select_format_module
+
+            mod = _select_format_module(str(p), "load_many", fmt)
+        except Exception:
+            continue
+        if not hasattr(mod, "load_one"):
+            continue
+        try:
+            with warnings.catch_warnings():
+                warnings.simplefilter("ignore")
+                one = load_one(str(p), fmt=fmt)
+                frames = list(load_many(str(p), fmt=fmt))[:3]
+        except Exception:
+            continue
+        for at in ("atmasses", "atnums", "atcorenums"):
+            x1 = getattr(one, at, None)
+            for k, fr in enumerate(frames):
+                xm = getattr(fr, at, None)
+                if x1 is None or xm is None or len(x1) != len(xm):
+                    continue
+                ok = bool(np.allclose(np.asarray(xm, float), np.asarray(x1, float), rtol=1e-9, atol=0))
+                ctx.count("search-many-vs-one", [p.name, at, k], f"{mod.__name__.split('.')[-1]}/{at}/{'ok' if ok else 'BAD'}")
+                if not ok:
+                    r = float(np.mean(np.asarray(xm, float) / np.asarray(x1, float)))
+                    ctx.fail(f"unit:{mod.__name__.split('.')[-1]}.load_many:{at}",
+                             f"{at} of frame {k} of {p.name} through load_many is {r:.6g} x the value load_one returns for the same file",
+                             {"kind": "many-vs-one", "file": p.name, "attr": at})
     # two-format round trips
     for _ in range(ctx.n(150, 2000) * (3 if ctx.escalated else 1)):
         a, b, fails = _roundtrip(ctx.rng, units)
@@ -745,6 +789,17 @@ def replay(ctx, obj):
     if inp["kind"] == "probe-problem":
         _rows, problems = run_probes(None, strict=False)
         return any(pr.split(":")[0] == inp["what"].split(":")[0] for pr in problems)
+    if inp["kind"] == "many-vs-one":
+        from iodata import load_many, load_one
+
+        pth = str(DATA / inp["file"])
+        fmt = "json_qcschema" if pth.endswith(".json") else None
+        with warnings.catch_warnings():
+            warnings.simplefilter("ignore")
+            one = getattr(load_one(pth, fmt=fmt), inp["attr"], None)
+            frames = [getattr(fr, inp["attr"], None) for fr in list(load_many(pth, fmt=fmt))[:3]]
+        return any(x is not None and one is not None and len(x) == len(one)
+                   and not np.allclose(np.asarray(x, float), np.asarray(one, float), rtol=1e-9, atol=0) for x in frames)
     if inp["kind"] == "roundtrip":
         return True  # random molecule not stored in full; rerun the check
     if inp["kind"] == "wfn-roundtrip":
